@@ -252,6 +252,15 @@ def s23(rng):
     return "DdtGaussian", cfg, h, True
 
 
+@scen("los/individual GEV")
+def s29(rng):
+    cfg, h = base_cfg(rng, rng.choice(["DdtGaussian", "DdtGaussKin"]))
+    lt = "DdtGaussian"
+    cfg.update(global_los_distribution=False, los_distribution_individual="GEV",
+               kwargs_los_individual=dict(xi=rng.choice([0.3, -0.2, 0.1, 0.0]), mean=rng.uniform(-0.02, 0.05), sigma=rng.uniform(0.01, 0.04)))
+    return lt, cfg, h, True
+
+
 @scen("lambda_mst/very unlikely data (log L << -745)")
 def s26(rng):
     cfg, h = base_cfg(rng, "DdtGaussian")
@@ -332,6 +341,29 @@ def gen_case(rng, k):
                 applicable=applicable, stream="main")
 
 
+def gev_declared(case):
+    cfg, h = case["cfg"], case["hyper"]
+    if cfg.get("los_distribution_individual") == "GEV" and cfg.get("global_los_distribution", False) is False:
+        return dict(cfg["kwargs_los_individual"])
+    g = cfg.get("global_los_distribution", False)
+    if g is not False and g is not None and (cfg.get("los_distributions") or [None])[g] == "GEV":
+        return dict(h["kwargs_los"][g])
+    return None
+
+
+def gev_ks_distance(case, gev):
+    from scipy.stats import genextreme, kstest
+    from hierarc.Sampling.Distributions.los_distributions import LOSDistribution
+    cfg = case["cfg"]
+    los = LOSDistribution(global_los_distribution=cfg.get("global_los_distribution", False),
+                          los_distributions=cfg.get("los_distributions"),
+                          individual_distribution=cfg.get("los_distribution_individual"),
+                          kwargs_individual=cfg.get("kwargs_los_individual"))
+    np.random.seed(20260930)
+    draws = np.array([float(np.squeeze(los.draw_los(case["hyper"]["kwargs_los"]))) for _ in range(4000)])
+    return float(kstest(draws, genextreme(c=gev["xi"], loc=gev["mean"], scale=gev["sigma"]).cdf).statistic)
+
+
 def oracle(case, runs):
     """runs: two (out, rec) evaluations under different seeds"""
     fails = []
@@ -355,6 +387,15 @@ def oracle(case, runs):
                 want = -math.inf
             if not close(o1["value"], want, 1e-10):
                 fails.append("value %r is not log(mean(exp l_i)) = %r" % (o1["value"], want))
+        # the generalised-extreme-value line-of-sight population (global or individual) is the declared one:
+        # Kolmogorov-Smirnov distance of 4000 draws to genextreme(c=xi, loc=mean, scale=sigma) (fixed seed;
+        # D > 0.06 has probability < 1e-12 under the declared law)
+        gev = gev_declared(case)
+        if gev is not None:
+            d = gev_ks_distance(case, gev)
+            if d > 0.06:
+                fails.append("draws of the GEV line-of-sight population are not from the declared genextreme(c=xi=%r, loc=%r, scale=%r): "
+                             "KS distance %.3f over 4000 draws" % (gev["xi"], gev["mean"], gev["sigma"], d))
         # every draw of every evaluation (re-draws of truncated populations included) comes from a declared population
         bad = lc.undeclared_requests(case["cfg"], case["hyper"], r1)
         if bad:
